@@ -4,7 +4,7 @@
 import PonyVerif.Lemmas.PyPrint3
 namespace PonyVerif.Model.PyPrint
 
-/-- what the theorem asks of an expression: a starred element of a list / tuple display is a `bitwise_or` (CPython
+/- what the theorem asks of an expression: a starred element of a list / tuple display is a `bitwise_or` (CPython
     rejects `[*a or b]`, which the printer would write for `[*(a or b)]`), displays hold no keyword items, and a tuple
     subscript is not empty -/
 mutual
@@ -68,8 +68,8 @@ theorem BinOp.prio_ge5 (op : BinOp) (h : op ≠ .pow) : 5 ≤ op.prio := by case
 theorem PGoal_vacuous (e : Expr) (h : 2 < codePrio e) : PGoal e := by
   intro rest fuel h2; omega
 
-theorem atom_goals (e : Expr) (t : Tok) (ht : toks e = [t]) (hn : norm e = e) (hc : cost e = 40) (hp : codePrio e ≤ 2)
-    (hpe : ∀ f r, pE (f+1) 2 (t :: r) = pPost f e r) : PGoal e ∧ EGoal e := by
+theorem atom_goals (e e' : Expr) (t : Tok) (ht : toks e = [t]) (hn : norm e = e') (hc : cost e = 40) (hp : codePrio e ≤ 2)
+    (hpe : ∀ f r, pE (f+1) 2 (t :: r) = pPost f e' r) : PGoal e ∧ EGoal e := by
   have hP : PGoal e := by
     intro rest fuel _ _ hf
     obtain ⟨g, rfl⟩ : ∃ g, fuel = g + 1 := ⟨fuel - 1, by omega⟩
@@ -77,9 +77,9 @@ theorem atom_goals (e : Expr) (t : Tok) (ht : toks e = [t]) (hn : norm e = e) (h
   exact ⟨hP, EGoal_of_PGoal e hp hP⟩
 
 theorem goals_name (s : String) : PGoal (.name s) ∧ EGoal (.name s) :=
-  atom_goals _ (.name s) (toks_name s) (by simp [norm]) (by simp [cost]) (by simp [codePrio]) (fun f r => pE_name f s r)
+  atom_goals _ _ (.name s) (toks_name s) (by simp [norm]) (by simp [cost]) (by simp [codePrio]) (fun f r => pE_name f s r)
 theorem goals_const (s : String) : PGoal (.const s) ∧ EGoal (.const s) :=
-  atom_goals _ (.const s) (toks_const s) (by simp [norm]) (by simp [cost]) (by simp [codePrio]) (fun f r => pE_const f s r)
+  atom_goals _ _ (.const s) (toks_const s) (by simp [norm]) (by simp [cost]) (by simp [codePrio]) (fun f r => pE_const f s r)
 
 /-- a left-associative binary operator of level 5 … 10 -/
 theorem bin_goals (op : BinOp) (l r : Expr) (hop : op ≠ .pow) (hl : EGoal l) (hr : EGoal r) : EGoal (.bin op l r) := by
@@ -97,5 +97,149 @@ theorem bin_goals (op : BinOp) (l r : Expr) (hop : op ≠ .pow) (hl : EGoal l) (
   have h2 := wrap_parse r hr op.prio (op.prio - 1) rest (g+1) (by omega) (by omega) (by omega) (hs.mono (by omega)) (by omega)
   rw [pBin_step (g+1) op.prio _ _ op _ _ rfl h2]
   exact pBin_stop g op.prio _ rest hs
+
+
+theorem goals_fstr (ps : FParts) : PGoal (.fstr ps) ∧ EGoal (.fstr ps) := by
+  refine atom_goals _ _ (.const _) (by simp [toks, prE]; rfl) (by simp [norm, prE]) (by simp [cost]) (by simp [codePrio])
+    (fun f r => pE_const f _ r)
+
+theorem pow_goals (l r : Expr) (hl : EGoal l) (hr : EGoal r) : EGoal (.bin .pow l r) := by
+  apply EGoal_of_base _ 3 (by omega) (by simp [codePrio, BinOp.prio]) (Or.inr (by simp [codePrio, BinOp.prio])) (by omega)
+  intro rest fuel hs hf
+  simp only [cost] at hf
+  obtain ⟨g, rfl⟩ : ∃ g, fuel = g + 1 := ⟨fuel - 1, by omega⟩
+  rw [toks_bin]
+  simp only [List.append_assoc, List.cons_append, norm, BinOp.prio]
+  have h1 := wrap_parse l hl 3 2 (.bin .pow :: (wrapT 3 r ++ rest)) g (by omega) (by omega)
+    (by omega) (by simp [Stops, contLvl, BinOp.prio]) (by omega)
+  have h2 := wrap_parse r hr 3 4 rest g (by omega) (by omega) (by omega) hs.up_3_4 (by omega)
+  exact pE_pow g _ _ _ _ _ h1 h2
+
+theorem unary_goals (op : UnOp) (e : Expr) (he : EGoal e) : EGoal (.unary op e) := by
+  apply EGoal_of_base _ 4 (by omega) (by simp [codePrio]) (Or.inr (by simp [codePrio])) (by omega)
+  intro rest fuel hs hf
+  simp only [cost] at hf
+  obtain ⟨g, rfl⟩ : ∃ g, fuel = g + 1 := ⟨fuel - 1, by omega⟩
+  rw [toks_unary]
+  simp only [List.cons_append, norm]
+  have h1 := wrap_parse e he 4 4 rest g (by omega) (by omega) (by omega) hs (by omega)
+  cases op
+  · exact pE_neg g _ _ _ h1
+  · exact pE_pos g _ _ _ h1
+
+theorem negConst_goals (s : String) : EGoal (.negConst s) := by
+  apply EGoal_of_base _ 4 (by omega) (by simp [codePrio]) (Or.inr (by simp [codePrio])) (by omega)
+  intro rest fuel hs hf
+  simp only [cost] at hf
+  obtain ⟨g, rfl⟩ : ∃ g, fuel = g + 1 := ⟨fuel - 1, by omega⟩
+  rw [toks_negConst]
+  simp only [List.cons_append, List.nil_append, norm]
+  have h1 := (goals_const s).2 4 rest g (by simp [codePrio]) (by omega) (by omega) hs (by simp [cost]; omega)
+  rw [toks_const] at h1
+  exact pE_neg g _ _ _ (by simpa [norm] using h1)
+
+theorem not_goals (e : Expr) (he : EGoal e) : EGoal (.not e) := by
+  apply EGoal_of_base _ 12 (by omega) (by simp [codePrio]) (Or.inr (by simp [codePrio])) (by omega)
+  intro rest fuel hs hf
+  simp only [cost] at hf
+  obtain ⟨g, rfl⟩ : ∃ g, fuel = g + 1 := ⟨fuel - 1, by omega⟩
+  rw [toks_not]
+  simp only [List.cons_append, norm]
+  exact pE_not g _ _ _ (wrap_parse e he 12 12 rest g (by omega) (by omega) (by omega) hs (by omega))
+
+def EsGoal (m : Exprs) : Prop :=
+  ∀ (isOr : Bool) rest f, Stops (if isOr then 14 else 13) rest → costEs m ≤ f →
+    pBoolTail f isOr (tEs (if isOr then 14 else 13) (if isOr then .kOr else .kAnd) m ++ rest) = some (normEs m, rest)
+def CmpGoal (m : CmpTail) : Prop :=
+  ∀ rest f, Stops 11 rest → costCmp m ≤ f → pCmpTail f (tCmp m ++ rest) = some (normCmp m, rest)
+def ArgsGoal (a : Args) : Prop :=
+  ∀ rest f, costArgs a ≤ f → pArgs f (tArgs a ++ .rpar :: rest) = some (normArgs a, rest)
+def ItemsGoal (a : Args) : Prop :=
+  ∀ c rest f, (c = Tok.rpar ∨ c = Tok.rbrk) → costArgs a ≤ f → pItems f c (tArgs a ++ c :: rest) = some (normArgs a, rest)
+def OptGoal (o : OptE) : Prop :=
+  ∀ t1 rest f, (t1 = Tok.colon ∨ t1 = Tok.comma ∨ t1 = Tok.rbrk) → costOpt o ≤ f →
+    pOpt f (tOpt o ++ t1 :: rest) = some (normOpt o, t1 :: rest)
+def IdxGoal (i : Idx) : Prop :=
+  ∀ t1 rest f, (t1 = Tok.comma ∨ t1 = Tok.rbrk) → costIdx i ≤ f → pIdx f (tIdx i ++ t1 :: rest) = some (normIdx i, t1 :: rest)
+def IdxsGoal (is : Idxs) : Prop :=
+  ∀ rest f, costIdxs is ≤ f → pIdxs f (tIdxs is ++ .rbrk :: rest) = some (normIdxs is, rest)
+def ParamsGoal (ps : Params) : Prop :=
+  ∀ rest f, costParams ps ≤ f → pParams f (tParams ps ++ .colon :: rest) = some (normParams ps, rest)
+def KVsGoal (k : KVs) : Prop :=
+  ∀ rest f, costKVs k ≤ f → pKVs f (tKVs k ++ .rbrc :: rest) = some (normKVs k, rest)
+
+theorem stops_tCmp (m : CmpTail) (rest : List Tok) (h : Stops 11 rest) : Stops 10 (tCmp m ++ rest) := by
+  cases m with
+  | nil => simpa [tCmp_nil] using h.mono (by omega)
+  | cons op e t => simp [tCmp_cons, Stops, contLvl]
+theorem stops_tEs_or (m : Exprs) (rest : List Tok) (h : Stops 14 rest) : Stops 13 (tEs 14 .kOr m ++ rest) := by
+  cases m with
+  | nil => simpa [tEs_nil] using h.mono (by omega)
+  | cons e t => simp [tEs_cons, Stops, contLvl]
+theorem stops_tEs_and (m : Exprs) (rest : List Tok) (h : Stops 13 rest) : Stops 12 (tEs 13 .kAnd m ++ rest) := by
+  cases m with
+  | nil => simpa [tEs_nil] using h.mono (by omega)
+  | cons e t => simp [tEs_cons, Stops, contLvl]
+
+theorem compare_goals (l : Expr) (op : CmpOp) (r : Expr) (m : CmpTail) (hl : EGoal l) (hr : EGoal r) (hm : CmpGoal m) :
+    EGoal (.compare l op r m) := by
+  apply EGoal_of_base _ 11 (by omega) (by simp [codePrio]) (Or.inr (by simp [codePrio])) (by omega)
+  intro rest fuel hs hf
+  simp only [cost] at hf
+  obtain ⟨g, rfl⟩ : ∃ g, fuel = g + 1 := ⟨fuel - 1, by omega⟩
+  rw [toks_compare]
+  simp only [List.append_assoc, List.cons_append, norm]
+  have h1 := wrap_parse l hl 11 10 (.cmp op :: (wrapT 11 r ++ (tCmp m ++ rest))) g (by omega) (by omega)
+    (by omega) (by simp [Stops, contLvl]) (by omega)
+  have h2 := wrap_parse r hr 11 10 (tCmp m ++ rest) g (by omega) (by omega) (by omega) (stops_tCmp m rest hs) (by omega)
+  exact pE_cmp g _ _ _ _ _ _ _ _ h1 h2 (hm rest g hs (by omega))
+
+theorem boolOp_goals (o : Bool) (a b : Expr) (m : Exprs) (ha : EGoal a) (hb : EGoal b) (hm : EsGoal m) :
+    EGoal (.boolOp o a b m) := by
+  cases o
+  · apply EGoal_of_base _ 13 (by omega) (by simp [codePrio]) (Or.inr (by simp [codePrio])) (by omega)
+    intro rest fuel hs hf
+    simp only [cost] at hf
+    obtain ⟨g, rfl⟩ : ∃ g, fuel = g + 1 := ⟨fuel - 1, by omega⟩
+    rw [toks_boolOp]
+    simp only [List.append_assoc, List.cons_append, norm, Bool.false_eq_true, if_false]
+    have h1 := wrap_parse a ha 13 12 (.kAnd :: (wrapT 13 b ++ (tEs 13 .kAnd m ++ rest))) g (by omega) (by omega)
+      (by omega) (by simp [Stops, contLvl]) (by omega)
+    have h2 := wrap_parse b hb 13 12 (tEs 13 .kAnd m ++ rest) g (by omega) (by omega) (by omega) (stops_tEs_and m rest hs) (by omega)
+    exact pE_and g _ _ _ _ _ _ _ h1 h2 (by simpa using hm false rest g (by simpa using hs) (by omega))
+  · apply EGoal_of_base _ 14 (by omega) (by simp [codePrio]) (Or.inr (by simp [codePrio])) (by omega)
+    intro rest fuel hs hf
+    simp only [cost] at hf
+    obtain ⟨g, rfl⟩ : ∃ g, fuel = g + 1 := ⟨fuel - 1, by omega⟩
+    rw [toks_boolOp]
+    simp only [List.append_assoc, List.cons_append, norm, if_true]
+    have h1 := wrap_parse a ha 14 13 (.kOr :: (wrapT 14 b ++ (tEs 14 .kOr m ++ rest))) g (by omega) (by omega)
+      (by omega) (by simp [Stops, contLvl]) (by omega)
+    have h2 := wrap_parse b hb 14 13 (tEs 14 .kOr m ++ rest) g (by omega) (by omega) (by omega) (stops_tEs_or m rest hs) (by omega)
+    exact pE_or g _ _ _ _ _ _ _ h1 h2 (by simpa using hm true rest g (by simpa using hs) (by omega))
+
+theorem ifExp_goals (b t o : Expr) (hb : EGoal b) (ht : EGoal t) (ho : EGoal o) : EGoal (.ifExp b t o) := by
+  apply EGoal_of_base _ 15 (by omega) (by simp [codePrio]) (Or.inr (by simp [codePrio])) (by omega)
+  intro rest fuel hs hf
+  simp only [cost] at hf
+  obtain ⟨g, rfl⟩ : ∃ g, fuel = g + 1 := ⟨fuel - 1, by omega⟩
+  rw [toks_ifExp]
+  simp only [List.append_assoc, List.cons_append, norm]
+  have h1 := wrap_parse b hb 15 14 (.kIf :: (wrapT 15 t ++ .kElse :: (wrapT 15 o ++ rest))) g (by omega) (by omega)
+    (by omega) (by simp [Stops, contLvl]) (by omega)
+  have h2 := wrap_parse t ht 15 14 (.kElse :: (wrapT 15 o ++ rest)) g (by omega) (by omega) (by omega)
+    (by simp [Stops, contLvl]) (by omega)
+  have h3 := wrap_parse o ho 15 16 rest g (by omega) (by omega) (by omega) hs.up_15_16 (by omega)
+  exact pE_ifExp g _ _ _ _ _ _ _ h1 h2 h3
+
+theorem lambda_goals (ps : Params) (b : Expr) (hps : ParamsGoal ps) (hb : EGoal b) : EGoal (.lambda ps b) := by
+  apply EGoal_of_base _ 16 (by omega) (by simp [codePrio]) (Or.inr (by simp [codePrio])) (by omega)
+  intro rest fuel hs hf
+  simp only [cost] at hf
+  obtain ⟨g, rfl⟩ : ∃ g, fuel = g + 1 := ⟨fuel - 1, by omega⟩
+  rw [toks_lambda]
+  simp only [List.append_assoc, List.cons_append, norm]
+  exact pE_lambda g _ _ _ _ _ (hps (wrapT 16 b ++ rest) g (by omega))
+    (wrap_parse b hb 16 16 rest g (by omega) (by omega) (by omega) hs (by omega))
 
 end PonyVerif.Model.PyPrint
